@@ -1,6 +1,5 @@
 """C20 - conversions to and from CF, rasterio (gdal), odc-geo and cartopy preserve the grid."""
 import math
-import re
 
 from .common import fhex, ints
 from . import c20_gen
@@ -183,10 +182,7 @@ def judge_cf(c, tags, o):
     if o["error"] is not None:
         return [("C20.cf.error." + cls, "load_cf_area raised %s (%s) on a valid CF grid" % (o["error"], o.get("message", "")))]
     want = expected_extent(spec, c["flipx"], c["flipy"])
-    extra = 0.0
-    if c["mode"] == 1:
-        extra = 1e-6          # PROJ's unit-conversion pipeline (inverse + forward projection), in CRS units
-    tx, ty = tolerances(spec, extra)
+    tx, ty = tolerances(spec)
     exact = tags["dyadic"] and c["mode"] == 0
     if o["shape"] != [spec["h"], spec["w"]]:
         bad.append(("C20.cf.shape", "shape %s, stored array is %s" % (o["shape"], [spec["h"], spec["w"]])))
@@ -344,7 +340,24 @@ def build_payload(ctx):
             c, t = gen_cf_case(r, fam=fam)
             c["flipx"], c["flipy"] = flipx, flipy
             cf.append((c, t))
+    # exhaustive small scope: every shape up to the tier bound x every orientation x metre/kilometre units, one dyadic laea grid
+    top = ctx.n(4, 7)
+    for w in range(2, top + 1):
+        for h in range(2, top + 1):
+            for flipx in (False, True):
+                for flipy in (False, True):
+                    for unit in ("m", "km"):
+                        spec = {"crs": POOL[0]["crs"], "extent": [-8192.0, 4096.0, -8192.0 + 1024.0 * w, 4096.0 + 512.0 * h], "w": w, "h": h}
+                        c = {"area": spec, "flipx": flipx, "flipy": flipy, "mode": 1 if unit == "km" else 0, "k": 1000.0 if unit == "km" else None,
+                             "lookup": "var", "dims": ["y", "x"], "time": False, "drop_wkt": False,
+                             "xname": "projection_x_coordinate", "yname": "projection_y_coordinate", "xunit": unit, "yunit": unit}
+                        cf.append((c, {"fam": "laea", "kind": "m", "dyadic": True, "upside_down": False, "unit": unit, "one_pixel": False}))
     raster = []
+    for w in range(1, top + 1):
+        for h in range(1, top + 1):
+            for sn in (False, True):
+                spec = {"crs": POOL[0]["crs"], "extent": [-8192.0, 4096.0, -8192.0 + 1024.0 * w, 4096.0 + 512.0 * h], "w": w, "h": h}
+                raster.append(({"area": spec, "sn": sn, "by_name": False}, {"fam": "laea", "kind": "m", "dyadic": True, "upside_down": False}))
     for _ in range(ctx.n(160, 1600)):
         spec, tags = gen_area(r, 1, 20)
         raster.append(({"area": spec, "sn": r.random() < 0.35, "by_name": r.random() < 0.25}, tags))
@@ -368,53 +381,24 @@ def build_payload(ctx):
     return {"cf": cf, "raster": raster, "geobox": geobox, "cartopy": cartopy, "rotated": rotated}
 
 
-def drop_header_artifact(ctx):
-    """common.check_assumptions reads the header line 'Axioms:' of Print Assumptions as an axiom called 'Axioms'
-    (reported to the lead).  Drop exactly that artefact; every real axiom name is still checked - including the ones Coq
-    prints with the type on the following line, which the shared parser does not see - by axiom_gate below."""
-    ctx.broken[:] = [b for b in ctx.broken if not (b[0].startswith("assumptions:") and b[1].endswith("non-stdlib axiom Axioms"))]
-    for t in ctx.assumptions_seen:
-        ctx.assumptions_seen[t] = [a for a in ctx.assumptions_seen[t] if a != "Axioms"]
-
-
-def axiom_gate(ctx):
-    from .common import ALLOWED_AXIOMS
-    theorems = getattr(ctx, "theorems", [])
-    if not theorems:
-        return
-    text = "From PR Require Import Properties.C20.\n" + "".join("Print Assumptions %s.\n" % t for t in theorems)
-    out, ok = ctx.coqc("c20_axioms", text, timeout=300)
-    if not ok:
-        ctx.broken.append(("assumptions:C20", out[-300:]))
-        return
-    names = set()
-    for line in out.splitlines():
-        m = re.match(r"^([A-Za-z_][\w.']*)\s*(:|$)", line)
-        if m and m.group(1) not in ("Axioms", "Closed"):
-            names.add(m.group(1))
-    for ax in sorted(names):
-        if ax not in ALLOWED_AXIOMS:
-            ctx.broken.append(("assumptions:C20", "a theorem depends on non-stdlib axiom %s" % ax))
-    ctx.notes.append("C20 axioms under Print Assumptions (all theorems): " + ", ".join(sorted(names)))
-
-
 def run(ctx):
-    drop_header_artifact(ctx)
-    axiom_gate(ctx)
     ctx.rule = ("PRNG areas over 14 CF-expressible CRSs (laea, stere N/S, merc, lcc, tmerc, UTM/3857/3035 EPSG, longlat x2, geos sweep x/y, "
                 "stere in km), shapes 1..24 (CF: 2..24 plus a 1-pixel-axis stream), half of the grids dyadic (extent multiples of 2^k, power-of-two "
                 "pixel sizes: every intermediate exact), ~12% upside-down originals; CF variants: ascending/descending y and x, units "
                 "m/meters/metres/km/degrees*/radians, variable-, search-, grid-mapping- and from_cf-based lookup, extra time dimension, "
-                "grid mapping with or without crs_wkt; rasters north-up and south-up through rasterio MemoryFile GeoTIFFs and a duck-typed gdal "
-                "dataset; rotated transforms. Oracle tolerances: extent and pixel centres within 1e-9 pixel + 8 ulp of the coordinate "
-                "(+1e-6 CRS units where PROJ converts km), exact equality on dyadic grids with coordinates in CRS units. "
+                "grid mapping with or without crs_wkt; plus every shape 2..4 (quick) / 2..7 (thorough) squared x 4 orientations x m/km on one dyadic "
+                "laea grid and every raster shape from 1x1; rasters north-up and south-up through rasterio MemoryFile GeoTIFFs and a duck-typed gdal "
+                "dataset; rotated transforms. Oracle tolerances: extent and pixel centres within 1e-9 pixel + 8 ulp of the coordinate, "
+                "also where PROJ converts km; exact equality on dyadic grids with coordinates in CRS units. "
                 "A case is non-trivial when the conversion ran end to end (or took the modelled raise path); distinct = distinct inputs")
+    ctx.exhaustive = True      # the small-scope part: all shapes <= 4x4 (quick) / 7x7 (thorough) x orientations x m/km, rasters from 1x1
     pl = build_payload(ctx)
     payload = {k: [c for c, _ in v] if k != "rotated" else v for k, v in pl.items()}
     obs = ctx.impl("c20", payload, timeout=ctx.n(600, 3000))
     for lib, ok in sorted(obs["libs"].items()):
         ctx.count("lib_%s_%s" % (lib, "present" if ok else "MISSING"))
     texts = []
+    worst = {}
     coqers = {"cf": ("chk_cf", coq_cf), "raster": ("chk_raster", coq_raster), "geobox": ("chk_geobox", coq_geobox),
               "cartopy": ("chk_cartopy", coq_cartopy)}
     needs = {"cf": "xarray", "raster": "rasterio", "geobox": "odc-geo", "cartopy": "cartopy"}
@@ -440,8 +424,19 @@ def run(ctx):
                 ctx.count("cf.lookup_" + c["lookup"])
                 if tags["one_pixel"]:
                     ctx.count("cf.one_pixel_axis_" + ("raised" if o.get("error") else "RETURNED"))
+                if o.get("error") is None and "extent" in o:
+                    ctx.count("cf.crs_%s" % ("equal" if o["crs_eq"] else "same_grid_only" if o["crs_op"] else "DIFFERENT"))
+                    if c.get("drop_wkt"):
+                        ctx.count("cf.grid_mapping_without_crs_wkt")
+                    want = expected_extent(c["area"], c["flipx"], c["flipy"])
+                    ps = min(abs(want[2] - want[0]) / c["area"]["w"], abs(want[3] - want[1]) / c["area"]["h"])
+                    err = max(abs(a - b) for a, b in zip(o["extent"], want)) / ps
+                    cls = "PROJ unit conversion" if c["mode"] == 1 else "dyadic, CRS units" if (tags["dyadic"] and c["mode"] == 0) else "other"
+                    worst[cls] = max(worst.get(cls, 0.0), err)
             if sect == "raster":
                 ctx.count("raster." + ("south_up" if c["sn"] else "north_up"))
+                if "rio" in o:
+                    ctx.count("raster.crs_%s" % ("equal" if o["rio"]["crs_eq"] else "same_grid_only" if o["rio"]["crs_op"] else "DIFFERENT"))
             ctx.count("%s.%s" % (sect, "dyadic" if tags["dyadic"] else "nondyadic"))
             for key, what in fails:
                 ctx.add_failure(key, "%s [%s %s %dx%d extent %s]" % (what, sect, tags["fam"], c["area"]["h"], c["area"]["w"], c["area"]["extent"]),
@@ -473,6 +468,8 @@ def run(ctx):
             lines.append("(%s, %s)" % (f6(c["tr"]), bl(o.get("gdal") == "ValueError")))
         texts += shards("rotated", "chk_rotated", lines)
 
+    if worst:
+        ctx.notes.append("C20 measured: largest CF extent error in pixels by class: " + ", ".join("%s %.3g" % kv for kv in sorted(worst.items())))
     res = ctx.coq_eval_many([(n, t) for n, t, _, _ in texts])
     for name, _, lines, what in texts:
         out, ok = res[name]
